@@ -37,6 +37,7 @@ class FactEngine(object):
     # expression and never written afterwards is keyed as its initialiser.
     def _aliases(self):
         written = set()
+        write_sites = {}          # root decl id -> [ast node of the write]
         decls = {}
         for x in walk(self.fn):
             if x.get('kind') == 'VarDecl' and 'init' in x:
@@ -48,22 +49,42 @@ class FactEngine(object):
                 r = _root_decl(lv)
                 if r:
                     written.add(r)
+                    write_sites.setdefault(r, []).append(x)
         for x in walk(self.fn):
             if x.get('kind') == 'ParmVarDecl':
                 decls.setdefault(x['id'], x)
         self.never_written = set(decls) - written
         const_method = bool(re.search(r'\)\s*const\b', qtype(self.fn)))
 
-        def stable(init):
-            """Every variable the initialiser reads keeps its value for the rest of the function."""
+        def written_after(decl_node, i):
+            """Is variable i written at a CFG node reachable after the declaration?"""
+            starts = self.cfg.nodes_for(decl_node)
+            if not starts:
+                return True
+            seen = set()
+            stack = [m for s_ in starts for (m, _) in s_.succs]
+            while stack:
+                n = stack.pop()
+                if n.id in seen:
+                    continue
+                seen.add(n.id)
+                stack.extend(m for (m, _) in n.succs)
+            for w in write_sites.get(i, ()):
+                for n in self.cfg.nodes_for(w):
+                    if n.id in seen:
+                        return True
+            return False
+
+        def stable(init, decl_node=None):
+            """Every variable the initialiser reads keeps its value from the declaration on."""
             for y in walk(init):
                 k = y.get('kind')
                 if k == 'DeclRefExpr':
                     rd = y.get('referencedDecl') or {}
                     if rd.get('kind') in ('VarDecl', 'ParmVarDecl'):
                         i = rd.get('id')
-                        if i in decls:
-                            if i not in self.never_written:
+                        if i in decls or i in written:
+                            if i in written and (decl_node is None or written_after(decl_node, i)):
                                 return False
                         else:
                             d = self.unit.by_id.get(i)
@@ -89,7 +110,7 @@ class FactEngine(object):
             if not ks:
                 continue
             init = ks[-1]
-            if not _pure(init) or not stable(init) or d.get('kind') == 'ParmVarDecl':
+            if not _pure(init) or not stable(init, d) or d.get('kind') == 'ParmVarDecl':
                 continue
             # only scalar / pointer / reference locals
             dt = dtype(d)
